@@ -9,6 +9,7 @@ import (
 	"reflect"
 	"regexp"
 	"regexp/syntax"
+	"time"
 	"strings"
 )
 
@@ -33,12 +34,12 @@ func (fr *frame) goValue(v value) any {
 		}
 		// error / Stringer: evaluate through the interpreter
 		if types.Implements(x.t, errorIface) {
-			if f := fr.i.prog.LookupMethod(x.t, nil, "Error"); f != nil {
+			if f := fr.i.methodOf(x.t, "Error"); f != nil {
 				s := fr.i.call(fr, token.NoPos, f, []value{x.v})
 				return bridgedError{msg: fr.strOrPlaceholder(s)}
 			}
 		}
-		if f := fr.i.prog.LookupMethod(x.t, nil, "String"); f != nil && f.Signature.Params().Len() == 0 {
+		if f := fr.i.methodOf(x.t, "String"); f != nil && f.Signature.Params().Len() == 0 {
 			s := fr.i.call(fr, token.NoPos, f, []value{x.v})
 			return bridgedStringer{s: fr.strOrPlaceholder(s)}
 		}
@@ -158,7 +159,7 @@ func init() {
 			if _, ok := w.v.(native); ok {
 				return tuple{len(s), iface{}}
 			}
-			f := fr.i.prog.LookupMethod(w.t, nil, "Write")
+			f := fr.i.methodOf(w.t, "Write")
 			if f == nil {
 				panic(unsupported("fmt.Fprint*: writer without Write"))
 			}
@@ -362,7 +363,7 @@ func (fr *frame) errUnwrap(err iface) []iface {
 	if err.t == nil {
 		return nil
 	}
-	f := fr.i.prog.LookupMethod(err.t, nil, "Unwrap")
+	f := fr.i.methodOf(err.t, "Unwrap")
 	if f == nil {
 		return nil
 	}
@@ -404,7 +405,7 @@ func (fr *frame) errorsIs(err, target iface) bool {
 				return true
 			}
 		}
-		if f := fr.i.prog.LookupMethod(e.t, nil, "Is"); f != nil && f.Signature.Params().Len() == 1 && f.Signature.Results().Len() == 1 {
+		if f := fr.i.methodOf(e.t, "Is"); f != nil && f.Signature.Params().Len() == 1 && f.Signature.Results().Len() == 1 {
 			if b, ok := fr.i.call(fr, token.NoPos, f, []value{e.v, target}).(bool); ok && b {
 				return true
 			}
@@ -443,7 +444,7 @@ func (fr *frame) errorsAs(err iface, target iface) bool {
 			fr.i.store(T, cell, e.v)
 			return true
 		}
-		if f := fr.i.prog.LookupMethod(e.t, nil, "As"); f != nil && f.Signature.Params().Len() == 1 && f.Signature.Results().Len() == 1 {
+		if f := fr.i.methodOf(e.t, "As"); f != nil && f.Signature.Params().Len() == 1 && f.Signature.Results().Len() == 1 {
 			if b, ok := fr.i.call(fr, token.NoPos, f, []value{e.v, target}).(bool); ok && b {
 				return true
 			}
@@ -463,4 +464,46 @@ func init() {
 	reg("errors.As", func(fr *frame, args []value) value { return fr.errorsAs(args[0].(iface), args[1].(iface)) })
 	skipInit["errors"] = true
 	skipInit["internal/abi"] = true
+}
+
+// ---- time.Time: formatting and calendar arithmetic are done by the host ---------------------
+
+func toGoTime(v value) time.Time {
+	st := v.(structure)
+	wall := st[0].(uint64)
+	ext := st[1].(int64)
+	const unixToInternal = 62135596800
+	if wall&(1<<63) != 0 {
+		// monotonic form: seconds since 1885 in wall bits 33..62
+		sec := int64(wall<<1>>31) + 59453308800 - unixToInternal
+		return time.Unix(sec, int64(wall&(1<<30-1))).UTC()
+	}
+	return time.Unix(ext-unixToInternal, int64(wall&(1<<30-1))).UTC()
+}
+
+func init() {
+	reg("(time.Time).Format", func(fr *frame, args []value) value {
+		return toGoTime(args[0]).Format(concStr(fr, args[1], "time.Format"))
+	})
+	reg("(time.Time).AppendFormat", func(fr *frame, args []value) value {
+		b := concBytes(fr, args[1], "time.AppendFormat")
+		return bytesToValues(toGoTime(args[0]).AppendFormat(b, concStr(fr, args[2], "time.AppendFormat")))
+	})
+	reg("(time.Time).String", func(fr *frame, args []value) value { return toGoTime(args[0]).String() })
+	reg("(time.Time).Date", func(fr *frame, args []value) value {
+		y, m, d := toGoTime(args[0]).Date()
+		return tuple{y, int(m), d}
+	})
+	reg("(time.Time).Clock", func(fr *frame, args []value) value {
+		h, m, s := toGoTime(args[0]).Clock()
+		return tuple{h, m, s}
+	})
+	reg("(time.Time).Weekday", func(fr *frame, args []value) value { return int(toGoTime(args[0]).Weekday()) })
+	reg("(time.Time).Year", func(fr *frame, args []value) value { return toGoTime(args[0]).Year() })
+	reg("(time.Time).Month", func(fr *frame, args []value) value { return int(toGoTime(args[0]).Month()) })
+	reg("(time.Time).Day", func(fr *frame, args []value) value { return toGoTime(args[0]).Day() })
+	reg("(time.Time).Hour", func(fr *frame, args []value) value { return toGoTime(args[0]).Hour() })
+	reg("(time.Time).Minute", func(fr *frame, args []value) value { return toGoTime(args[0]).Minute() })
+	reg("(time.Time).Second", func(fr *frame, args []value) value { return toGoTime(args[0]).Second() })
+	reg("(time.Time).YearDay", func(fr *frame, args []value) value { return toGoTime(args[0]).YearDay() })
 }
